@@ -19,6 +19,8 @@ HEADER = ("From Shk Require Import Base.Prelude Model.Plot Model.PlotSpec Corr.C
 QUERIES = [
     ("Mplot", "bad_indices plot_model_bad plot_cases"),
     ("Oplot", "bad_indices plot_oracle_bad plot_cases"),
+    ("Mcollect", "bad_indices plot_model_bad collect_cases"),
+    ("Ocollect", "bad_indices plot_oracle_bad collect_cases"),
     ("Mmood", "bad_indices mood_model_bad mood_cases"),
     ("Omood", "bad_indices mood_oracle_bad mood_cases"),
     ("Me2e", "bad_indices e2e_model_bad e2e_cases"),
@@ -40,8 +42,8 @@ PARTS = [
 ]
 
 
-def diagnose(tier, cases_v, idx):
-    qs = [("P%d" % i, "match nth_error plot_cases %d with Some c => if (%s) then [] else [1%%N] | None => [2%%N] end" % (idx, expr))
+def diagnose(tier, cases_v, idx, lst="plot_cases"):
+    qs = [("P%d" % i, "match nth_error %s %d with Some c => if (%s) then [] else [1%%N] | None => [2%%N] end" % (lst, idx, expr))
           for i, (_, expr) in enumerate(PARTS)]
     rc, out, q, _ = vlib.eval_cases(PID, tier + "_diag", HEADER, cases_v, qs, timeout=1200)
     failed = []
@@ -66,7 +68,7 @@ def run(tier, seed):
         res.violation(None, "proof obligations of C19 broken: %s" % detail.get("broken"),
                       {"kind": "proof-obligation", "detail": detail}, no_input=True)
         return res.finish()
-    names = ["c19"] + (["shakespeare"] if tier == "thorough" else [])
+    names = ["c19", "shakespeare"]
     try:
         bins = vlib.build_bins(names)
     except vlib.BuildError as e:
@@ -76,8 +78,7 @@ def run(tier, seed):
     out = tempfile.mkdtemp(prefix="shk-c19-")
     try:
         cmd = [bins["c19"], "-seed", str(seed), "-tier", tier, "-out", out]
-        if tier == "thorough":
-            cmd += ["-bin", bins["shakespeare"]]
+        cmd += ["-bin", bins["shakespeare"]]
         rc, o = vlib.run(cmd, timeout=2400)
         if rc != 0:
             res.violation(None, "harness crashed (or the generator and the parser disagree about the configurations)",
@@ -93,15 +94,16 @@ def run(tier, seed):
     cases["e2e"] = cases.get("e2e") or []
     e2e_done = [e for e in cases["e2e"] if not e["Err"]]
     res.coverage.update({
-        "evaluations": summary["plot"] + summary["mood"] + len(e2e_done),
+        "evaluations": summary["plot"] + summary["collect"] + summary["mood"] + len(e2e_done),
         "distinct_nontrivial": summary["distinct_nontrivial"],
         "exhaustive": False,
-        "rule": "plot: generated configurations (0-4 actors over 1-2 roles with event/scalar/delta signals; 0-5 members declared member by member or interleaved, with watches of signals / every <role> / computed and built-in variables, measures, only helps, audits, computes, collects, expects; 0-4 acts, optional repeat from) x collected states (hasData per actor / watched variable / auditor, 0-4 mood periods incl. partly or wholly outside the window and rare infinite ends, act starts with 0-3 repetitions and early termination, collected range absent / short / negative start / normal), through the real assemble + plot + subPlots; both scripts and runme.gp parsed strictly into directives. non-trivial = distinct (configuration, state) whose script has at least one lane or one member box. mood: random mood-change sequences (incl. unchanged moods, clear, out-of-order time stamps) through the real collectAndAuditMood/checkFinal. e2e (thorough): plays through the real binary.",
+        "rule": "plot: generated configurations (0-4 actors over 1-2 roles with event/scalar/delta signals; 0-5 members declared member by member or interleaved, with watches of signals / every <role> / computed and built-in variables, measures, only helps, audits, computes, collects, expects; 0-4 acts, optional repeat from) x collected states (hasData per actor / watched variable / auditor, 0-4 mood periods incl. partly or wholly outside the window and rare infinite ends, act starts with 0-3 repetitions and early termination, collected range absent / short / negative start / normal), through the real assemble + plot + subPlots; both scripts and runme.gp parsed strictly into directives. non-trivial = distinct (configuration, state) whose script has at least one lane or one member box. collect: the same configurations (a third with an auditor that has no watches and mentions only t / mood / moodt) with the collected state PRODUCED BY THE REAL COLLECTOR: generated action reports, observations (of watched signals, watched and built-in variables) and audition reports are fed through the real collectActionReport / collectObservation / collectAuditionReport (expandTimeRange included), then the real assemble + plot run; the expected state is derived from the events alone (verdicts count as received data). mood: random mood-change sequences (incl. unchanged moods, clear, out-of-order time stamps) through the real collectAndAuditMood/checkFinal. e2e (4 plays quick, 12 thorough): plays through the real binary, each with an auditor whose only data are verdicts.",
         "samples": summary["samples"],
-        "distribution": dict(summary["stats"], plot_cases=summary["plot"], mood_cases=summary["mood"],
+        "distribution": dict(summary["stats"], plot_cases=summary["plot"], collect_cases=summary["collect"],
+                             collect_cases_with_verdict_only_member=summary["collect_verdict_only_boxes"], mood_cases=summary["mood"],
                              e2e_plays=summary["e2e"], e2e_completed=summary["e2e_completed"],
                              unusable_configurations=summary["unusable_configurations"]),
-        "traces_validated_against_impl": summary["plot"] + summary["mood"] + len(e2e_done),
+        "traces_validated_against_impl": summary["plot"] + summary["collect"] + summary["mood"] + len(e2e_done),
         "cases_file": path,
     })
     if rc != 0 or any(v is None for v in vals.values()):
@@ -121,6 +123,19 @@ def run(tier, seed):
                        "observed": {"MinTime": c["Out"]["MinTime"], "MaxTime": c["Out"]["MaxTime"], "HasRepeat": c["Out"]["HasRepeat"],
                                     "RepeatStart": c["Out"]["RepeatStart"], "files": c["Out"]["Files"]},
                        "replay": "cmd.VerifPlot(VerifPlotInput{CfgText: cfg, ...data...}) — see harness/c19/main.go runPlotCase; case index %d of seed %d" % (idx, seed)})
+    if vals["Ocollect"]:
+        idx = vals["Ocollect"][0]
+        c = cases["collect"][idx]
+        failed = diagnose(tier, cases_v, idx, "collect_cases")
+        sig = "collected-" + ("+".join(failed) if failed else "other")
+        res.violation(sig, "after the real collector processed a generated event history, the script does not show exactly the data received (%s); %d of %d cases fail" %
+                      (", ".join(failed) or "see replay", len(vals["Ocollect"]), summary["collect"]),
+                      {"kind": "failing-input", "failed_clauses": failed, "n_failing": len(vals["Ocollect"]),
+                       "input": {"cfg": c["Cfg"], "events": c["Events"], "repeat_act": c["RepeatAct"],
+                                 "mood_periods": c["Data"]["Moods"], "act_changes": c["Data"]["Acts"]},
+                       "expected_received": {k: c["Data"][k] for k in ("ActorHas", "VarHas", "AuditHas", "ObsHas")},
+                       "observed": {"csv": c.get("CSV"), "MinTime": c["Out"]["MinTime"], "MaxTime": c["Out"]["MaxTime"], "files": c["Out"]["Files"]},
+                       "replay": "cmd.VerifCollectAndPlot(cfg, events, moods, acts, numRepeats) — see harness/c19/main.go runCollectCase; case index %d of seed %d" % (idx, seed)})
     if vals["Omood"]:
         c = cases["mood"][vals["Omood"][0]]
         res.violation("mood-periods", "the recorded mood periods are not the maximal non-clear stretches of the mood changes",
@@ -133,13 +148,14 @@ def run(tier, seed):
                        "expect": c["Expect"], "n_failing": len(vals["Oe2e"]),
                        "replay": "shakespeare -q -o out play.cfg (cwd = directory of play.cfg), compare out/latest/plots/*.gp with out/latest/csv"})
     if not res.violations and not res.known:
-        for name, key, pool in (("Mplot", "plot", cases["plot"]), ("Mmood", "mood", cases["mood"]), ("Me2e", "e2e", e2e_done)):
+        for name, key, pool in (("Mplot", "plot", cases["plot"]), ("Mcollect", "collect", cases["collect"]),
+                                ("Mmood", "mood", cases["mood"]), ("Me2e", "e2e", e2e_done)):
             if vals[name]:
                 c = pool[vals[name][0]]
                 res.violation(None, "model and implementation disagree on a %s case (property oracle passes): correspondence %s broken" % (key, name),
                               {"kind": "correspondence", "query": name, "n_disagreements": len(vals[name]), "first": c},
                               no_input=True)
-        if tier == "thorough" and len(e2e_done) < max(1, summary["e2e"] // 2):
+        if len(e2e_done) < max(1, summary["e2e"] // 2):
             res.violation(None, "fewer than half of the end-to-end plays completed",
                           {"kind": "harness-crash", "errors": [e["Err"][:500] for e in cases["e2e"] if e["Err"]]}, no_input=True)
     res.coverage["disagreements"] = {k: len(v) for k, v in vals.items()}
